@@ -1,7 +1,7 @@
 """C13 — a MuSig secret nonce can sign at most once, whatever happens (a property of call HISTORIES).
 
 Two engines over the same abstract single-use model:
-  * `histories`  bounded EXHAUSTIVE enumeration of every call history of depth 3 (quick, 28^3 = 21 952) / depth 4 (thorough,
+  * `histories`  bounded EXHAUSTIVE enumeration (one case = 28 histories sharing a prefix) of every call history of depth 3 (quick, 28^3 = 21 952) / depth 4 (thorough,
                  28^4 = 614 656) over 14 operations x 2 nonce slots; each history is executed by the C sequence runner
                  `vf_c13_run` (csrc/shim_C13.inc, public API only) and its per-step observation vector is compared with the model;
   * `random_histories`  Hypothesis histories of up to 50 calls over 3 slots / 3 signers driven call-by-call through ctypes, fresh
@@ -25,7 +25,8 @@ NCODES = 2 * NOPS
 OPNAMES = ["gen_ok", "gen_zero_rand", "gen_bad_seckey", "gen_counter", "gen_null_pubnonce", "gen_bad_cache",
            "sign_s1", "sign_s2", "sign_negated_key", "sign_other_key", "sign_null_out", "sign_bad_cache", "sign_bad_session", "sign_null_keypair"]
 
-RULE = ("histories: ALL sequences of depth 3 (quick: 28^3 = 21952) / 4 (thorough: 28^4 = 614656) over the alphabet {6 nonce-generation variants "
+RULE = ("histories: ALL sequences of depth 3 (quick: 28^3 = 21952) / 4 (thorough: 28^4 = 614656; one evaluated case = the 28 histories sharing a prefix, class "
+        "'histories:history' counts single histories per build) over the alphabet {6 nonce-generation variants "
         "(valid, zero randomness, invalid seckey, counter entry point, NULL pubnonce, invalid keyagg cache), 8 partial-sign variants (correct keypair "
         "session 1 / session 2, keypair of the negated key, unrelated keypair, NULL output, invalid cache, invalid session, NULL keypair)} x 2 secnonce slots, "
         "executed through the public API by a C sequence runner; random_histories: Hypothesis histories of <= 50 calls over 3 slots and 3 signers with every "
@@ -125,28 +126,58 @@ def enum_params(seed_hex):
 
 
 def histories(tier, shard, nshards):
+    """One case = the 28 histories that share a (depth-1)-step prefix (keeps the driver's per-case journaling out of the inner loop)."""
     depth = 3 if tier == "quick" else 4
     seed = os.environ.get("VERIF_SEED", "1") or "1"
-    total = NCODES ** depth
+    total = NCODES ** (depth - 1)
     for i in range(shard, total, nshards):
-        ops = []
+        prefix = []
         x = i
-        for _ in range(depth):
-            ops.append(x % NCODES)
+        for _ in range(depth - 1):
+            prefix.append(x % NCODES)
             x //= NCODES
-        ops.reverse()
-        # 64 different parameter blocks per run (keys, messages, randomness), chosen by history index
+        prefix.reverse()
+        # 64 different parameter blocks per run (keys, messages, randomness), chosen by prefix index
         ph = hashlib.sha256(("C13|%s|%d" % (seed, i % 64)).encode()).hexdigest()[:32]
-        yield {"ops": ops, "p": ph}
+        yield {"prefix": prefix, "p": ph}
+
+
+def check_history(env, fn, blobbuf, ops):
+    obs = buf(8 * len(ops))
+    opsb = buf(len(ops), bytes(ops))
+    r = fn(env.lib.ctx, blobbuf, opsb, c_size_t(len(ops)), obs)
+    env.require(r == 1, "C13 runner failed")
+    exp = model_enum(ops)
+    o = obs.raw
+    for i, e in enumerate(exp):
+        ret, zero, wiped, ill, err, ver, other_same, ver_other = o[8 * i:8 * i + 8]
+        if (ret == e["ret"] and zero == e["zero"] and (e["wiped"] == 2 or wiped == e["wiped"]) and err == 0 and other_same == 1
+                and (e["ill"] == "any" or (e["ill"] == "zero" and ill == 0) or (e["ill"] == "ge1" and ill >= 1))
+                and (e["ver"] == 2 or (ver == 1 and ver_other == 0))):
+            continue
+        name = "%s[slot %d]" % (OPNAMES[ops[i] >> 1], ops[i] & 1)
+        ctxmsg = "step %d (%s) of history %s" % (i, name, " ".join("%s/%d" % (OPNAMES[c >> 1], c & 1) for c in ops))
+        det = {"step": i, "history": list(ops), "observed": list(o[8 * i:8 * i + 8]), "expected": e}
+        env.require(ret == e["ret"], "%s: returned %d, single-use model says %d" % (ctxmsg, ret, e["ret"]), **det)
+        env.require(zero == e["zero"], "%s: secnonce all-zero=%d, model says %d%s" % (
+            ctxmsg, zero, e["zero"], " (a LIVE secret nonce survived a call that must consume/invalidate it)" if e["zero"] else ""), **det)
+        if e["wiped"] != 2:
+            env.require(wiped == e["wiped"], "%s: session_secrand32 wiped=%d after a successful nonce_gen" % (ctxmsg, wiped), **det)
+        if e["ill"] == "zero":
+            env.require(ill == 0, "%s: illegal callback fired %d time(s) on a valid call" % (ctxmsg, ill), **det)
+        elif e["ill"] == "ge1":
+            env.require(ill >= 1, "%s: documented illegal-argument condition did not reach the illegal callback" % ctxmsg, **det)
+        env.require(err == 0, "%s: error callback fired" % ctxmsg, **det)
+        env.require(other_same == 1, "%s: the OTHER slot's secnonce bytes changed" % ctxmsg, **det)
+        if e["ver"] != 2:
+            env.require(ver == 1, "%s: produced partial signature does not verify for the slot's pubnonce" % ctxmsg, **det)
+            env.require(ver_other == 0, "%s: partial signature also verifies under the other session" % ctxmsg, **det)
 
 
 def run_enum(env, case):
     lib = env.lib
     fn = lib.dll.vf_c13_run
-    ops = case["ops"]
     params = enum_params(case["p"])
-    obs = buf(8 * len(ops))
-    opsb = buf(max(1, len(ops)), bytes(ops))
     lib.reset()
     # the fixed environment is a pure function of the parameter block: memoised per worker (64 blocks per run)
     blob = env.cache.get(("c13env", case["p"]))
@@ -158,30 +189,17 @@ def run_enum(env, case):
         blob = e.raw
         if len(env.cache) < 256:
             env.cache[("c13env", case["p"])] = blob
-    r = fn(lib.ctx, buf(len(blob), blob), opsb, c_size_t(len(ops)), obs)
-    env.require(r == 1, "C13 runner failed")
-    exp = model_enum(ops)
-    o = obs.raw
-    for i, e in enumerate(exp):
-        ret, zero, wiped, ill, err, ver, other_same, ver_other = o[8 * i:8 * i + 8]
-        name = "%s[slot %d]" % (OPNAMES[ops[i] >> 1], ops[i] & 1)
-        ctxmsg = "step %d (%s) of history %s" % (i, name, " ".join("%s/%d" % (OPNAMES[c >> 1], c & 1) for c in ops))
-        env.require(ret == e["ret"], "%s: returned %d, single-use model says %d" % (ctxmsg, ret, e["ret"]), step=i)
-        env.require(zero == e["zero"], "%s: secnonce all-zero=%d, model says %d%s" % (
-            ctxmsg, zero, e["zero"], " (a LIVE secret nonce survived a call that must consume/invalidate it)" if e["zero"] else ""), step=i)
-        if e["wiped"] != 2:
-            env.require(wiped == e["wiped"], "%s: session_secrand32 wiped=%d after a successful nonce_gen" % (ctxmsg, wiped), step=i)
-        if e["ill"] == "zero":
-            env.require(ill == 0, "%s: illegal callback fired %d time(s) on a valid call" % (ctxmsg, ill), step=i)
-        elif e["ill"] == "ge1":
-            env.require(ill >= 1, "%s: documented illegal-argument condition did not reach the illegal callback" % ctxmsg, step=i)
-        env.require(err == 0, "%s: error callback fired" % ctxmsg, step=i)
-        env.require(other_same == 1, "%s: the OTHER slot's secnonce bytes changed" % ctxmsg, step=i)
-        if e["ver"] != 2:
-            env.require(ver == 1, "%s: produced partial signature does not verify for the slot's pubnonce" % ctxmsg, step=i)
-            env.require(ver_other == 0, "%s: partial signature also verifies under the other session" % ctxmsg, step=i)
-    nt, cl = classify_enum(ops)
-    return nt, cl + ["depth=%d" % len(ops)]
+    blobbuf = buf(len(blob), blob)
+    classes = []
+    nt_any = False
+    for last in range(NCODES):
+        ops = list(case["prefix"]) + [last]
+        check_history(env, fn, blobbuf, ops)
+        nt, cl = classify_enum(ops)
+        nt_any = nt_any or nt
+        # class labels are emitted once per HISTORY (so the histogram in the evidence file counts histories, not cases)
+        classes += cl + ["history", "history_depth=%d" % len(ops)] + (["history_nontrivial"] if nt else [])
+    return nt_any, classes
 
 
 # ------------------------------------------------------------------ random longer histories, driven call by call
@@ -395,11 +413,11 @@ def run_random(env, case):
 
 
 TESTS = [
-    Test("histories", histories, run_enum, kind="enum", max_workers=8,
+    Test("histories", histories, run_enum, kind="enum", max_workers=4,
          must_cover=["sign_success", "reuse_after_success", "sign_attempt_after_failed_call", "failed_gen_over_live_nonce",
                      "failing_sign_on_live:sign_negated_key", "failing_sign_on_live:sign_null_out", "failing_sign_on_live:sign_other_key",
                      "failing_sign_on_live:sign_bad_cache", "failing_sign_on_live:sign_bad_session", "failing_sign_on_live:sign_null_keypair"]),
-    Test("random_histories", random_history, run_random, quick=400, thorough=10000,
+    Test("random_histories", random_history, run_random, quick=400, thorough=10000, max_workers=4,
          must_cover=["sign_success", "failing_sign_on_live:neg", "failing_sign_on_live:null_out", "failed_gen_over_live", "sign_attempt_on_dead_nonce",
                      "gen_ok_counter", "gen_ok_rand", "reuse_rand_buffer"]),
 ]
